@@ -77,6 +77,36 @@ def type_of(t):
 
 # ----------------------------------------------------------------- arithmetic
 
+def canon_sum(coefs, const):
+    """canonical term for sum(coef*atom) + const"""
+    pos = sorted(((v, c) for v, c in coefs.items() if c > 0), key=lambda x: repr(x[0]))
+    neg = sorted(((v, c) for v, c in coefs.items() if c < 0), key=lambda x: repr(x[0]))
+    t = None
+    for v, c in pos:
+        x = _atom_term(v) if c == 1 else ('mul', ('int', c), _atom_term(v))
+        t = x if t is None else ('add', t, x)
+    if t is None:
+        t = ('int', const)
+        const = 0
+    for v, c in neg:
+        x = _atom_term(v) if c == -1 else ('mul', ('int', -c), _atom_term(v))
+        t = ('sub', t, x)
+    if const > 0:
+        t = ('add', t, ('int', const))
+    elif const < 0:
+        t = ('sub', t, ('int', -const))
+    return t
+
+
+def _atom_term(v):
+    if v[0] == 'mono':
+        t = v[1][0]
+        for f in v[1][1:]:
+            t = ('mul', t, f)
+        return t
+    return v
+
+
 def mk_add(a, b):
     if is_int(a) and is_int(b):
         return I(a[1] + b[1])
@@ -84,7 +114,12 @@ def mk_add(a, b):
         return b
     if is_int(b) and b[1] == 0:
         return a
-    return ('add', a, b)
+    la, ca = linearize(a)
+    lb, cb = linearize(b)
+    r = dict(la)
+    for v, c in lb.items():
+        r[v] = r.get(v, 0) + c
+    return canon_sum({v: c for v, c in r.items() if c != 0}, ca + cb)
 
 
 def mk_sub(a, b):
@@ -94,7 +129,12 @@ def mk_sub(a, b):
         return a
     if a == b:
         return I(0)
-    return ('sub', a, b)
+    la, ca = linearize(a)
+    lb, cb = linearize(b)
+    r = dict(la)
+    for v, c in lb.items():
+        r[v] = r.get(v, 0) - c
+    return canon_sum({v: c for v, c in r.items() if c != 0}, ca - cb)
 
 
 def mk_mul(a, b):
@@ -465,6 +505,11 @@ def range_constraints(atom):
     if atom[0] == 'mono':
         if all(INT_RANGES.get(TYPES.get(f) or ('usize' if f[0] == 'len' else ''), (-1, 0))[0] >= 0 for f in atom[1]):
             out.append((((atom, -1),), 0))
+        return out
+    if atom[0] == 'len':
+        # Vec/slice lengths never exceed isize::MAX (language guarantee for non-zero-sized elements)
+        out.append((((atom, -1),), 0))
+        out.append((((atom, 1),), -(2 ** 63 - 1)))
         return out
     if ty in INT_RANGES:
         lo, hi = INT_RANGES[ty]
